@@ -102,6 +102,35 @@ CHECKS = {
          'R5 holds an independent transcription of the pinned precedence table (the repository documents it only in the grammar). '
          'Expressions with an undefined sub-expression or more than 300 bits are skipped (counted).',
          'DESIGN.md section 3 C12'),
+ 'C03': ('exploration',
+         'exhaustive enumeration of macro skeletons x identifier-collision assignments x file splits vs an independent AST inliner (image equality through the real assembler)',
+         '14 skeletons (param vs caller label, @ local vs argument, nested argument capture, rep iterator vs names, nested rep, '
+         'caller label spelled like an iterator two levels down, arity overloading, < globals and > externs, namespaces with '
+         '.rel and ..rel names, $, a local passed down, a label declared through a parameter, rep counts 0/1/3, three call '
+         'levels with equal names, iterator spelled like its own macro parameter) x every assignment of the pool {a,b,i} to '
+         'the name slots (about 2 800 well-formed programs, 2 660 with a collision) x w x every 2-way file split: the image '
+         'must equal the image of the program inlined by R4 on the AST.',
+         'Trusts R4 (fjv/ref/macro.py, 150 lines); the primitive side is assembled by the real assembler (C02 covers it). `$` as a macro ARGUMENT is rejected by the assembler and is outside the family.',
+         'DESIGN.md section 3 C03'),
+ 'C14': ('exploration',
+         'exhaustive error templates (error class x evaluation stage x width x version) and all single-token mutations of seed programs; outcome classification',
+         '5 arithmetic faults x 16 evaluation stages (parse-time folding, constant definition/use, macro argument, rep count / '
+         'iterator, pad / segment / reserve argument, late label resolution in flip / jump / wflip / segment, $) and ~70 further '
+         'error templates (lexing, syntax, macros, labels, constants, directives, ranges, files) at every width and version, '
+         'plus every deletion / duplication / swap / substitution (41-token alphabet) of every token of four seed programs (one '
+         'with the stl): the outcome must be success or a FlipJumpException that is not the generic "Unknown exception" funnel '
+         '(and names the offending identifier for templates that carry one), within 30 s, leaving no loadable output file.',
+         'Astronomically large ** / << operands and expression nesting beyond 300 are not generated.',
+         'DESIGN.md section 3 C14'),
+ 'C16': ('exploration',
+         'exhaustive program family (C03 skeletons x identifier assignments x 1/2 files) - label instances of the inlined program matched against the saved table; breakpoint resolution over all names and derived substrings',
+         'For ~5 500 (program, width, split) tables: every label instance produced by the R4 inliner must be in the saved table at '
+         'its address (exact name for top-level/extern labels, a distinct name ending in the source label for macro-local ones), '
+         'save/load must round-trip (also synthetic tables with unicode / 2 000 entries), and get_breakpoint_handler must resolve '
+         'every exact label and every separator-delimited fragment of every name (incl. fragments with ( ) . : { -) to exactly '
+         'the addresses of the labels containing it.',
+         'The naming format is deliberately not pinned.',
+         'DESIGN.md section 3 C16'),
 }
 
 NOT_YET = {
